@@ -158,12 +158,13 @@ var plans = map[string]Plan{
 	},
 	"C20": {
 		Level: "exploration",
-		Rule: "cases are (base multi-file Thrift program, edit script) committed as HEAD~ and HEAD of a scratch git repository: 1-5 files in nested directories with includes along a DAG; 0-7 edits drawn from 5 breaking kinds (remove service, remove method, add required field to an existing struct, optional->required on fields without a default and on fields whose old version carried a default value (the default is dropped with the edit), change a field's declared type name) and 14 compatible kinds (add optional field / method / service / struct / enum / constant / typedef / file / include, reorder, required->optional, delete struct, delete file, remove include); 15+3 enumerated pairs. The real thriftbreak binary is run in readable and --json mode (and again on reordered renderings). " +
+		Rule: "cases are (base multi-file Thrift program, edit script) committed as HEAD~ and HEAD of a scratch git repository: 1-5 files in nested directories with includes along a DAG; 0-7 edits drawn from 5 breaking kinds (remove service, remove method, add required field to an existing struct, optional->required on fields without a default and on fields whose old version carried a default value (the default is dropped with the edit), change a field's declared type name) and 14 compatible kinds (add optional field / method / service / struct / enum / constant / typedef / file / include, reorder, required->optional, delete struct, delete file, remove include); 15+3 enumerated pairs (the 15 each under four file-mode variants). What git records about a file besides its contents varies too: in half of the random cases every path (Thrift files, the non-Thrift file) carries the executable bit (tree mode 100755) in both commits, in HEAD~ only, in HEAD only (a mode change with or without a change of contents) or in neither; a fifth of the repositories are packed (git gc) before the run. The real thriftbreak binary is run in readable and --json mode (and again on reordered renderings). " +
 			"Oracle: multiset of (file, kind, subject names) parsed from the output == the multiset known by construction from the edit script; exit status != 0 iff non-empty. " +
 			"Non-trivial: >=1 breaking edit or >=2 compatible edits. Distinct: SHA-256 of the JSON case (all file texts of both versions).",
 		Assumptions: []string{
 			"the five message phrases and %q-quoted names are the tool's interface; a file attribution is correct if it is the repo-relative path or the base name",
 			"ambiguous edits (a name moved between files, required field added with a default, renames) are not generated",
+			"a Thrift file is a regular git blob (mode 100644 or 100755); symbolic links (to files or directories) and submodules are not committed: internal/git reads blobs by their tree path and does not follow links, and the statement speaks of files",
 			"a field declared `required` together with a default value is compiled as not required by thriftrw; edits that end in (or start from) that shape are not generated because the statement does not say whether they count as 'required'",
 		},
 		Prebuild: []Prebuild{{Name: "thriftbreak", Pkg: "go.uber.org/thriftrw/cmd/thriftbreak"}},
